@@ -397,7 +397,22 @@ func ownerThroughCallers(c *eng.Ctx, fn *ssa.Function, allowed []string, depth i
 	}
 	callers := c.P.StaticCallers(fn)
 	if len(callers) == 0 {
-		return ""
+		// used as a callback (method value): it acts for the functions that hand it out
+		refs := c.P.ValueReferrers(fn)
+		if len(refs) == 0 {
+			return ""
+		}
+		first := ""
+		for _, r := range refs {
+			o := ownerThroughCallers(c, r, allowed, depth+1, seen)
+			if o == "" {
+				return ""
+			}
+			if first == "" {
+				first = o
+			}
+		}
+		return first
 	}
 	first := ""
 	for _, cs := range callers {
